@@ -11,7 +11,7 @@ def fbits(x):
 F32 = sorted(set([
     0x00000000, 0x80000000, fbits(1.0), fbits(-1.0), fbits(0.5), fbits(-0.5), fbits(2.0), fbits(3.0), fbits(10.0), fbits(0.1), fbits(0.25),
     fbits(1.5), fbits(2.5), fbits(-2.5), fbits(0.001), fbits(0.0005), fbits(0.0015), fbits(0.0025), fbits(123.4565), fbits(1e-5), fbits(3.14159265),
-    0x7f800000, 0xff800000, 0x7fc00000, 0x00000001, 0x80000001, 0x007fffff, 0x00800000, 0x7f7fffff, 0xff7fffff,
+    0x7f800000, 0xff800000, 0x7fc00000, 0xffc00000, 0x7fc00001, 0xff800001, 0x7fffffff, 0x00000001, 0x80000001, 0x007fffff, 0x00800000, 0x7f7fffff, 0xff7fffff,
     fbits(2147483648.0), fbits(-2147483648.0), fbits(2147483520.0), fbits(4294967296.0), fbits(1e20), fbits(-1e20), fbits(16777216.0), fbits(16777218.0),
     fbits(1.8446744e19), fbits(0.9995), fbits(0.99949), fbits(999.9995), fbits(-0.0004), fbits(1e-40), fbits(7.0), fbits(-7.5), fbits(1e10),
 ]))
@@ -25,9 +25,7 @@ def rand_f32(rng):
         return fbits(rng.uniform(-100, 100))
     if r < 0.75:
         return fbits(rng.randrange(-1000, 1000) / rng.choice([1, 2, 4, 8, 10, 100, 1000]))
-    b = rng.getrandbits(32)
-    if (b & 0x7f800000) == 0x7f800000 and (b & 0x7fffff):
-        b = 0x7fc00000
+    b = rng.getrandbits(32)          # NaNs keep their sign and payload: the implementation must not depend on them
     return b
 
 
